@@ -23,3 +23,23 @@ func verifRoundTripBalances(w0 io.Writer, r0 io.Reader, x Balances) (y Balances,
 	decErr = y.Decode(r0)
 	return y, nil, decErr
 }
+
+func verifRoundTripSubAlloc(w0 io.Writer, r0 io.Reader, x SubAlloc) (y SubAlloc, encErr, decErr error) {
+	encErr = x.Encode(w0)
+	if encErr != nil {
+		return y, encErr, nil
+	}
+	verifLink(w0, r0)
+	decErr = y.Decode(r0)
+	return y, nil, decErr
+}
+
+func verifRoundTripAllocation(w0 io.Writer, r0 io.Reader, x Allocation) (y Allocation, encErr, decErr error) {
+	encErr = x.Encode(w0)
+	if encErr != nil {
+		return y, encErr, nil
+	}
+	verifLink(w0, r0)
+	decErr = y.Decode(r0)
+	return y, nil, decErr
+}
